@@ -92,7 +92,7 @@ func accessFrames(report string) (frames []string, internal bool) {
 				// the access is made by the scheduler itself while it evaluates which transitions are
 				// enabled (it polls ctx.Err()): look further down the stack
 				for k := j; k < len(lines) && strings.TrimSpace(lines[k]) != ""; k++ {
-					if strings.Contains(lines[k], "verifrt.(*sched).") || strings.Contains(lines[k], "verifrt.ctxDone") {
+					if strings.Contains(lines[k], "verifrt.(*sched).enabled") || strings.Contains(lines[k], "verifrt.(*sched).decide") || strings.Contains(lines[k], "verifrt.ctxDone") {
 						internal = true
 					}
 				}
@@ -480,6 +480,36 @@ func main() {
 		fmt.Fprintln(os.Stderr, "TOOL-ERROR: the C11 harness must be built with -race")
 		os.Exit(2)
 	}
+	// canary: a deliberately racy harness-only program. If the detector does not report it under
+	// the controlled scheduler, the whole check is blind: that is a tool error, not a pass.
+	h.Seq("canary (self-test: an unsynchronised counter must be reported)", func(s *hx.Seq) {
+		if !s.Own() {
+			return
+		}
+		seen := false
+		st := verifrt.Explore(verifrt.Config{Name: "canary", Bound: 1}, func() {
+			x := 0
+			par(func() { x++ }, func() { x++ })
+			_ = x
+		}, func(x *verifrt.ExecResult) verifrt.Verdict {
+			for _, r := range newReports() {
+				if fr, internal := accessFrames(r); !internal && len(fr) > 0 && strings.Contains(fr[0], "main.") {
+					seen = true
+				}
+			}
+			return verifrt.Verdict{Outcome: x.Status}
+		})
+		s.Eval(int(st.Executions))
+		s.Trans(int(st.Transitions))
+		s.State("canary")
+		s.Distinct("canary-a")
+		s.Distinct("canary-b")
+		s.Sample("two threads increment an int without synchronisation: the race detector must report it in one of the enumerated schedules")
+		if !seen {
+			fmt.Fprintln(os.Stderr, "TOOL-ERROR: the race detector did not report the canary race under the controlled scheduler: the C11 check would be blind")
+			os.Exit(2)
+		}
+	})
 	for _, p := range programs() {
 		h.Sched(p.name, 1, 2, p.body, raceOracle(p.name))
 	}
